@@ -51,6 +51,22 @@ type paramsD struct {
 	cap   int
 	names []string
 	ttl   time.Duration
+	// fine: sub-resolution clock mode. The idle limit is 9 min and the clock
+	// advances by 4 min (shorter than the 5 min write-out resolution of the
+	// recorded access time) or 5 min; no persist ops (kept small, depth 8).
+	fine bool
+}
+
+const (
+	fineTTI  = 9 * time.Minute
+	fineStep = 4 * time.Minute
+)
+
+func (p paramsD) tti() time.Duration {
+	if p.fine {
+		return fineTTI
+	}
+	return bfsTTI
 }
 
 type mfile struct {
@@ -118,6 +134,10 @@ func (s *sysD) Ops() []string {
 			continue
 		}
 		ops = append(ops, "read "+n)
+		if s.p.fine {
+			ops = append(ops, "del "+n)
+			continue
+		}
 		if f.flag != 2 {
 			ops = append(ops, "pt "+n)
 		}
@@ -126,11 +146,14 @@ func (s *sysD) Ops() []string {
 		}
 		ops = append(ops, "del "+n)
 	}
+	if s.p.fine {
+		return append(ops, "clean", "advS", "advR", "reload")
+	}
 	return append(ops, "clean", "advR", "advI", "reload")
 }
 
 func (s *sysD) capAge(t time.Time) time.Duration {
-	lim := bfsTTI
+	lim := s.p.tti()
 	if s.p.ttl > lim {
 		lim = s.p.ttl
 	}
@@ -287,14 +310,16 @@ func (s *sysD) Apply(op string) error {
 			s.stat.once(preKey+op, "delete answered ErrFilePersisted")
 		}
 	case "clean":
-		cfg := store.CleanupConfig{TTI: bfsTTI, TTL: s.p.ttl}
+		cfg := store.CleanupConfig{TTI: s.p.tti(), TTL: s.p.ttl}
 		if _, err := s.cm.Tick(s.w.op(), cfg); err != nil {
 			return fmt.Errorf("cleanup: %v", err)
 		}
+	case "advS":
+		s.clk.advance(fineStep)
 	case "advR":
 		s.clk.advance(bfsRes)
 	case "advI":
-		s.clk.advance(bfsTTI + time.Second)
+		s.clk.advance(s.p.tti() + time.Second)
 	case "reload":
 		s.w.open()
 	default:
@@ -343,7 +368,7 @@ func (s *sysD) Apply(op string) error {
 		for _, n := range s.p.names {
 			pm, pd, d := preM[n], pre[n], post[n]
 			if !pm.exists || pm.flag == 2 {
-				if pm.exists && (now.Sub(pd.lat) > bfsTTI || s.p.ttl > 0 && now.Sub(pd.mtime) > s.p.ttl) {
+				if pm.exists && (now.Sub(pd.lat) > s.p.tti() || s.p.ttl > 0 && now.Sub(pd.mtime) > s.p.ttl) {
 					s.stat.once(preKey+op, "cleanup pass over an idle/expired PROTECTED file")
 				}
 				continue
@@ -352,8 +377,15 @@ func (s *sysD) Apply(op string) error {
 				return fmt.Errorf("%s has no LAT sidecar (not reachable in this alphabet)", n)
 			}
 			expired := s.p.ttl > 0 && now.Sub(pd.mtime) > s.p.ttl
-			idle := now.Sub(pd.lat) > bfsTTI
-			recentlyRead := now.Sub(s.m[n].lastRead) <= bfsTTI
+			idle := now.Sub(pd.lat) > s.p.tti()
+			// The recorded access time may lag a real access by less than the
+			// write-out resolution; a read is decidedly "within the idle
+			// limit" only if it still is after adding that lag. Reads in the
+			// band (TTI-resolution, TTI] are decided by the recorded time.
+			recentlyRead := now.Sub(s.m[n].lastRead) <= s.p.tti()-bfsRes
+			if !expired && now.Sub(s.m[n].lastRead) <= s.p.tti() && !recentlyRead && idle {
+				s.stat.once(preKey+op, "read inside the undecided band (recorded time lags by < resolution)")
+			}
 			switch {
 			case expired || idle:
 				if idle && recentlyRead && !expired {
@@ -420,18 +452,21 @@ func searchStores(run *evid.Run, thorough bool, deadline time.Time) {
 	}
 	two, three := names[:2], names[:3]
 	searches := []search{
-		{"lru cap=1 2 names ttl=off", paramsD{"lru", 1, two, 0}, 6},
-		{"caslru cap=1 2 names ttl=3h", paramsD{"caslru", 1, two, 3 * time.Hour}, 6},
-		{"lru cap=2 3 names ttl=off", paramsD{"lru", 2, three, 0}, 5},
+		{"lru cap=1 2 names ttl=off", paramsD{kind: "lru", cap: 1, names: two, ttl: 0}, 6},
+		{"caslru cap=1 2 names ttl=3h", paramsD{kind: "caslru", cap: 1, names: two, ttl: 3 * time.Hour}, 6},
+		{"lru cap=2 3 names ttl=off", paramsD{kind: "lru", cap: 2, names: three, ttl: 0}, 5},
+		{"fine clock (4/5 min steps, TTI 9 min) lru cap=2 2 names", paramsD{kind: "lru", cap: 2, names: two, fine: true}, 8},
 	}
 	if thorough {
 		searches = []search{
-			{"lru cap=1 2 names ttl=off", paramsD{"lru", 1, two, 0}, 6},
-			{"lru cap=1 2 names ttl=3h", paramsD{"lru", 1, two, 3 * time.Hour}, 6},
-			{"caslru cap=1 2 names ttl=3h", paramsD{"caslru", 1, two, 3 * time.Hour}, 6},
-			{"caslru cap=2 3 names ttl=off", paramsD{"caslru", 2, three, 0}, 6},
-			{"lru cap=2 3 names ttl=3h", paramsD{"lru", 2, three, 3 * time.Hour}, 6},
-			{"lru cap=unbounded 2 names ttl=3h", paramsD{"lru", 0, two, 3 * time.Hour}, 6},
+			{"lru cap=1 2 names ttl=off", paramsD{kind: "lru", cap: 1, names: two, ttl: 0}, 6},
+			{"lru cap=1 2 names ttl=3h", paramsD{kind: "lru", cap: 1, names: two, ttl: 3 * time.Hour}, 6},
+			{"caslru cap=1 2 names ttl=3h", paramsD{kind: "caslru", cap: 1, names: two, ttl: 3 * time.Hour}, 6},
+			{"caslru cap=2 3 names ttl=off", paramsD{kind: "caslru", cap: 2, names: three, ttl: 0}, 6},
+			{"lru cap=2 3 names ttl=3h", paramsD{kind: "lru", cap: 2, names: three, ttl: 3 * time.Hour}, 6},
+			{"lru cap=unbounded 2 names ttl=3h", paramsD{kind: "lru", cap: 0, names: two, ttl: 3 * time.Hour}, 6},
+			{"fine clock (4/5 min steps, TTI 9 min) lru cap=2 2 names", paramsD{kind: "lru", cap: 2, names: two, fine: true}, 9},
+			{"fine clock (4/5 min steps, TTI 9 min) caslru cap=1 2 names ttl=20min", paramsD{kind: "caslru", cap: 1, names: two, ttl: 20 * time.Minute, fine: true}, 8},
 		}
 	}
 	st := &statsD{seen: map[string]bool{}, cnt: map[string]int64{}, run: run}
